@@ -4,7 +4,8 @@
     detect.go   ListDatabases, DetectDataDir, DetectAllDataDirs (isValidDataDir / getDataDirCandidates / expandPath
                 are parameters: they only call os.Stat / os.Getenv / filepath.Abs)
     pgdump.go   DumpAll
-    remote.go   Credentials, Summary, SummaryResult.MarshalJSON (the only MarshalJSON method of package pgdump)
+    remote.go   Credentials, Control, Summary, SummaryResult.MarshalJSON (the only MarshalJSON method of package pgdump)
+    deleted.go  ScanAllDeletedRows;  passwords.go  ExtractPasswords   (one-line wrappers)
 
   Same conventions as Model/Cluster.lean: the file system is `fs : path ↦ Option content` relative to the data
   directory (`none` = os.ReadFile failed), `rr` = the row reader, `π` = map iteration order, a Go panic = a fault.
@@ -185,5 +186,24 @@ def summaryMarshalJSON (s : SummaryResult) : Bytes :=
     (if creds = [] then [] else [Txt.asc "\"credentials\":" ++ jsonStrArray creds]) ++
     (if dbs = [] then [] else [Txt.asc "\"databases\":" ++ jsonStrMap dbs])
   [123] ++ Txt.joinBytes [44] fields ++ [125]
+
+/-! ### thin wrappers that C10_COVERAGE.md listed as "not modelled separately" -/
+
+/-- deleted.go:ScanAllDeletedRows — `withDefaults`, then DumpDataDir; the error is passed through (`none`) -/
+def scanAllDeletedRows (rr : RowReader) (π : MapOrder TableInfo) (fs : Bytes → Option Bytes) (opts : Options) :
+    M (Option DumpResult) :=
+  dumpDataDir rr π fs opts
+
+/-- passwords.go:ExtractPasswords — os.ReadFile(global/1260), error passed through (`none`), else ParsePGAuthID -/
+def extractPasswords (fs : Bytes → Option Bytes) : M (Option (List AuthInfo)) :=
+  match fs (strBytes "global/1260") with
+  | none => pure none
+  | some data => do pure (some (← parsePGAuthID data))
+
+/-- remote.go:Control — nil when global/pg_control cannot be read or ParseControlFile reports its error -/
+def rcControl (fs : RemoteReader) : M (Option ControlFile) :=
+  match fs (strBytes "global/pg_control") with
+  | some data => parseControlFile data
+  | none => pure none
 
 end PgVerif.Model.Extra
